@@ -121,6 +121,7 @@ class Body:
         self._calls = None
         self._defs = None
         self._idom = None
+        self._tagl = None
         self._const_switch = None
 
     # ------------------------------------------------------------------ basic structure
@@ -233,6 +234,13 @@ class Body:
             for stmt in blk["stmts"]:
                 if stmt["s"] == "assign" and stmt["rv"]["k"] in ("ref", "rawptr") and stmt["rv"].get("bk") == "mut":
                     tracked.discard(stmt["rv"]["place"]["l"])
+        # variant tags of enum values (Result/Option/Poll/ControlFlow..): a value built as `Err(..)` on one path and tested by
+        # `match`/`?` later follows only the Err arm. Tracked for the locals that flow into a discriminant read.
+        tagged = self._tag_locals()
+        for blk in self.blocks:
+            for stmt in blk["stmts"]:
+                if stmt["s"] == "assign" and stmt["rv"]["k"] in ("ref", "rawptr") and stmt["rv"].get("bk") == "mut":
+                    tagged.discard(stmt["rv"]["place"]["l"])
         seen = set()
         from collections import deque as _dq
         dq = _dq()
@@ -256,9 +264,11 @@ class Body:
                     continue
                 lhs = stmt["lhs"]
                 L = lhs["l"]
+                rv = stmt["rv"]
+                if L in tagged or (rv["k"] == "discr" and rv["place"]["l"] in tagged):
+                    self._tag_transfer(facts, lhs, rv, tagged)
                 if L not in tracked:
                     continue
-                rv = stmt["rv"]
                 if lhs["p"]:
                     # field write `_t.1 = ..`
                     if len(lhs["p"]) == 1 and isinstance(lhs["p"][0], dict) and "f" in lhs["p"][0]:
@@ -308,7 +318,14 @@ class Body:
             succs = self.succ[bb]
             if t["t"] == "switch":
                 dl = op_local(t["discr"])
-                if dl is not None and (dl,) in facts and self.locals[dl]["ty"] == "bool":
+                if dl is not None and (dl, "disc") in facts:
+                    val = facts[(dl, "disc")]
+                    nxt = t["otherwise"]
+                    for v, tg in t["arms"]:
+                        if v == val:
+                            nxt = tg
+                    succs = [nxt] if nxt in self.succ[bb] else succs
+                elif dl is not None and (dl,) in facts and self.locals[dl]["ty"] == "bool":
                     val = 1 if facts[(dl,)] else 0
                     nxt = t["otherwise"]
                     for v, tg in t["arms"]:
@@ -317,9 +334,28 @@ class Body:
                     succs = [nxt] if nxt in self.succ[bb] else succs
             elif t["t"] == "call":
                 d = t.get("dest")
-                if d is not None and d["l"] in tracked:
+                if d is not None and (d["l"] in tracked or d["l"] in tagged):
                     for k in [k for k in facts if k[0] == d["l"]]:
                         facts.pop(k)
+                if d is not None and not d["p"] and d["l"] in tagged and strip_generics(t.get("fn") or "") == "core::ops::try_trait::FromResidual::from_residual":
+                    dty = self.locals[d["l"]]["ty"]
+                    if dty.startswith("core::result::Result<"):
+                        facts[(d["l"], "tag")] = "Err"
+                    elif dty.startswith("core::option::Option<"):
+                        facts[(d["l"], "tag")] = "None"
+                elif d is not None and not d["p"] and d["l"] in tagged and t.get("args"):
+                    fn = strip_generics(t.get("fn") or "")
+                    a0 = op_place(t["args"][0])
+                    if a0 is not None and not a0["p"]:
+                        tg0 = facts.get((a0["l"], "tag"))
+                        if fn == "core::ops::try_trait::Try::branch" and tg0 is not None:
+                            facts[(d["l"], "tag")] = "Continue" if tg0 in ("Ok", "Some") else "Break" if tg0 in ("Err", "None") else None
+                            if facts[(d["l"], "tag")] is None:
+                                facts.pop((d["l"], "tag"))
+                            elif (a0["l"], "ptag") in facts and facts[(d["l"], "tag")] == "Continue":
+                                facts[(d["l"], "ptag")] = facts[(a0["l"], "ptag")]
+                        elif fn in ("core::result::Result::map_err", "core::result::Result::map", "core::option::Option::map", "core::future::into_future::IntoFuture::into_future") and tg0 is not None:
+                            facts[(d["l"], "tag")] = tg0
                 # a `&mut flag` passed to a call could change it: drop facts of locals whose address was taken mutably
             nf = frozenset(facts.items())
             for v in succs:
@@ -330,6 +366,84 @@ class Body:
                     seen.add(st)
                     dq.append(st)
         return blocks_seen
+
+    def _tag_locals(self):
+        """locals whose enum variant is worth tracking: those read by a `discriminant(..)` and whatever flows into them through
+        whole moves, payload extraction `(x as V).0`, wrapping aggregates and Try::branch / map / map_err"""
+        if getattr(self, "_tagl", None) is not None:
+            return set(self._tagl)
+        want = set()
+        for blk in self.blocks:
+            for st in blk["stmts"]:
+                if st["s"] == "assign" and st["rv"]["k"] == "discr":
+                    want.add(st["rv"]["place"]["l"])
+        changed = True
+        while changed:
+            changed = False
+            for blk in self.blocks:
+                for st in blk["stmts"]:
+                    if st["s"] != "assign" or st["lhs"]["l"] not in want:
+                        continue
+                    rv = st["rv"]
+                    srcs = []
+                    if rv["k"] == "use":
+                        srcs.append(op_local(rv["op"]))
+                    elif rv["k"] == "agg":
+                        srcs += [op_local(o) for o in rv["ops"]]
+                    for x in srcs:
+                        if x is not None and x not in want:
+                            want.add(x)
+                            changed = True
+                t = blk["term"]
+                if t["t"] == "call" and t.get("dest") and t["dest"]["l"] in want and t.get("args"):
+                    fn = strip_generics(t.get("fn") or "")
+                    if fn in ("core::ops::try_trait::Try::branch", "core::result::Result::map_err", "core::result::Result::map", "core::option::Option::map",
+                              "core::future::into_future::IntoFuture::into_future"):
+                        x = op_local(t["args"][0])
+                        if x is not None and x not in want:
+                            want.add(x)
+                            changed = True
+        self._tagl = set(want)
+        return set(want)
+
+    def _tag_transfer(self, facts, lhs, rv, tagged):
+        L = lhs["l"]
+        if rv["k"] == "discr":
+            pl = rv["place"]
+            tg = facts.get((pl["l"], "tag")) if not [e for e in pl["p"] if e != "*"] else None
+            for k in [k for k in facts if k[0] == L]:
+                facts.pop(k)
+            if tg is not None:
+                for val, nm in rv.get("variants", []):
+                    if nm == tg:
+                        facts[(L, "disc")] = int(val)
+            return
+        if lhs["p"]:
+            for k in [k for k in facts if k[0] == L and len(k) > 1 and k[1] in ("tag", "ptag", "disc")]:
+                facts.pop(k)
+            return
+        for k in [k for k in facts if k[0] == L and len(k) > 1 and k[1] in ("tag", "ptag", "disc")]:
+            facts.pop(k)
+        if rv["k"] == "agg" and rv.get("agg") == "adt":
+            facts[(L, "tag")] = rv.get("variant")
+            if len(rv["ops"]) == 1:
+                pl = op_place(rv["ops"][0])
+                if pl is not None and not pl["p"] and (pl["l"], "tag") in facts:
+                    facts[(L, "ptag")] = facts[(pl["l"], "tag")]
+        elif rv["k"] == "use":
+            c = op_const(rv["op"])
+            pl = op_place(rv["op"])
+            if c is not None and c.get("variant"):
+                facts[(L, "tag")] = c["variant"]
+            elif pl is not None:
+                if not pl["p"]:
+                    for key in ("tag", "ptag"):
+                        if (pl["l"], key) in facts:
+                            facts[(L, key)] = facts[(pl["l"], key)]
+                else:
+                    pp = [e for e in pl["p"] if not (isinstance(e, dict) and "downcast" in e)]
+                    if len(pp) == 1 and isinstance(pp[0], dict) and pp[0].get("f") == 0 and (pl["l"], "ptag") in facts:
+                        facts[(L, "tag")] = facts[(pl["l"], "ptag")]
 
     def reachable_after(self, bb, removed_nodes=(), removed_edges=()):
         """blocks reachable strictly after executing block `bb` (bb itself only if on a cycle)"""
@@ -788,7 +902,9 @@ class Program:
     def all_calls_to(self, *names, crates=("acmed", "tacd", "acme_common"), include_derive=False):
         out = []
         for b in self.user_bodies(crates, include_derive):
-            out.extend(b.calls_to(*names))
+            if self.absorbed(b.key):
+                continue        # a new helper inlined everywhere: its call sites are seen inside its callers' views, under their names
+            out.extend(self.body(b.key).calls_to(*names))
         return out
 
 
